@@ -198,6 +198,18 @@ def run(ctx: core.Ctx):
             ctx.fail("whitsvc(lc=...)", dict(form=form, p=p), repr(e)[:200], "no exception")
             continue
         ctx.count("whitsvc lc form " + form)
+        # a raster that is given decides the grid, whatever else is passed along with it
+        if k % 2 == 0:
+            try:
+                both = da.hdc.whit.whitsvc(nodata=nd, lc=lcd, srange=np.arange(-2.0, 4.0, 0.4), p=p).transpose(..., "y", "x")
+                plain = da.hdc.whit.whitsvc(nodata=nd, lc=lcd, p=p).transpose(..., "y", "x")
+                ctx.case(("whitsvc-lc+srange", cube.tobytes(), p))
+                ctx.count("whitsvc lc and srange together")
+                if not (np.array_equal(both["band"].values, plain["band"].values) and np.array_equal(both["sgrid"].values, plain["sgrid"].values, equal_nan=True)):
+                    ctx.fail("whitsvc(lc=..., srange=...)", dict(p=p, lc=lcv.tolist()), dict(sgrid=both["sgrid"].values.tolist()), dict(sgrid=plain["sgrid"].values.tolist()),
+                             note="when an autocorrelation raster is given the grid is -2..1.0 where lc > 0.5 and 0..3.0 elsewhere")
+            except Exception as e:  # noqa: BLE001
+                ctx.fail("whitsvc(lc=..., srange=...)", dict(p=p), repr(e)[:200], "no exception")
         for i in range(ny):
             for j in range(nx):
                 yy = cube[:, i, j].astype("float64")
